@@ -25,7 +25,13 @@ ASSUMPTIONS = ["documented lookup criteria (case-insensitive): 'SER='+name in th
                "accepted; agreement between the layers is demanded for lists without SNR= tags"]
 
 VIDPID = "USB VID:PID=04D8:FD92"
-NAMES = ["EiBotBoard 2", "My EiBotBoard 3", "EiBotBoard", "SER=7", "LOCATION", "USB VID", "(COM3)", "Ada", "AxiDraw 7", "AxiDraw_7", "north-east", "A", "Ad", "ADA", "Plotter42", "x" * 16, "Bob", "bob2", "COM", "dev"]
+# names as users type or paste them: decomposed accents (e + U+0301), compatibility singletons (ANGSTROM SIGN,
+# OHM SIGN), precomposed letters, non-Latin scripts.  Only names whose case mapping is stable
+# (x.upper().lower() == x.lower()) - "case-insensitively" has no single meaning for the others (sharp s ...)
+UNICODE_NAMES = [n for n in ["Cafe\u0301", "\u212bngstro\u0308m", "Zo\u00eb 2", "\u2126mega", "\u03a9mega", "plotter-\u65e5\u672c",
+                             "\u0410\u043a\u0441\u0438", "nai\u0308ve", "\u00c5sa", "A\u030asa", "e\u0301e\u0301", "\u1e9b\u0323x"]
+                 if n.upper().lower() == n.lower() and n.lower().upper().lower() == n.lower()]
+NAMES = UNICODE_NAMES + ["EiBotBoard 2", "My EiBotBoard 3", "EiBotBoard", "SER=7", "LOCATION", "USB VID", "(COM3)", "Ada", "AxiDraw 7", "AxiDraw_7", "north-east", "A", "Ad", "ADA", "Plotter42", "x" * 16, "Bob", "bob2", "COM", "dev"]
 
 
 def classify(rec):
